@@ -217,8 +217,60 @@ pub const CHOICE_KEYS: [i32; 24] = [49, 50, 51, 52, 53, 54, 55, 56, 57, 48, 97, 
 pub const PHRASES: [(&str, &str); 5] =
     [("測試", "ㄘㄜˋ ㄕˋ"), ("策士", "ㄘㄜˋ ㄕˋ"), ("冊", "ㄘㄜˋ"), ("試試測", "ㄕˋ ㄕˋ ㄘㄜˋ"), ("是", "ㄕˋ")];
 
+/// a C string argument: `None` = NULL pointer, else the bytes before the terminating NUL (not necessarily UTF-8)
+pub type Arg = Option<Vec<u8>>;
+
+/// phrases for the arbitrary user-phrase calls: the five of `PHRASES`, the empty string, one character, ASCII, twelve
+/// characters; `gen_arg` adds NULL and bytes that are not UTF-8
+pub const PHRASE_POOL: [&str; 10] = ["測試", "策士", "冊", "試試測", "是", "", "測", "abc", "測試測試測試測試測試測試", "是是"];
+/// bopomofo strings: well formed (1, 2, 3 syllables), empty, extra white space of every ASCII kind, an unparsable token
+/// after / before / between good ones, two syllables glued together, twelve syllables
+pub const BOPO_POOL: [&str; 14] = [
+    "ㄘㄜˋ ㄕˋ", "ㄘㄜˋ", "ㄕˋ ㄕˋ ㄘㄜˋ", "ㄕˋ", "", "  ㄘㄜˋ\tㄕˋ \r\n", "ㄘㄜˋ xyz", "xyz", "xyz ㄘㄜˋ", "ㄘㄜˋ ㄜㄘ ㄕˋ", "ㄘㄜˋㄕˋ",
+    "ㄘㄜˋ ㄕˋ ㄘㄜˋ ㄕˋ ㄘㄜˋ ㄕˋ ㄘㄜˋ ㄕˋ ㄘㄜˋ ㄕˋ ㄘㄜˋ ㄕˋ", "ㄕˋ\x0cㄕˋ", " ",
+];
+
+pub const STR_NAMES: [&str; 3] = ["chewing.keyboard_type", "chewing.selection_keys", "chewing.no_such_option"];
+/// keyboard names of include/chewing.h with their numbers, and names that are none
+pub const KB_NAMES: [(&str, i32); 9] = [
+    ("KB_DEFAULT", 0), ("KB_HSU", 1), ("KB_DVORAK", 6), ("KB_DVORAK_HSU", 7), ("KB_HANYU_PINYIN", 9), ("KB_COLEMAK", 16),
+    ("KB_NOPE", -1), ("", -1), ("kb_hsu", -1),
+];
+pub const SELKEY_STRS: [&str; 7] = ["asdfghjkl;", "1234567890", "qwertyuiop", "123456789", "12345678901", "asdfghjkl測", ""];
+
+pub fn gen_arg(rng: &mut Rng, pool: &[&str]) -> Arg {
+    match rng.weighted(&[20, 1, 1]) {
+        0 => Some(rng.pick(pool).as_bytes().to_vec()),
+        1 => None,
+        _ => Some(vec![0xe6, 0xb8, 0xff]),
+    }
+}
+
+/// `-` NULL, `!` bytes that are not UTF-8 (both are `None` for `str_from_ptr_with_nul`), else `x<hex>`
+pub fn arg_token(a: &Arg) -> String {
+    match a {
+        None => "-".into(),
+        Some(b) => match std::str::from_utf8(b) {
+            Ok(s) => vharness::hx(s),
+            Err(_) => "!".into(),
+        },
+    }
+}
+
+pub fn arg_str(a: &Arg) -> Option<&str> {
+    a.as_ref().and_then(|b| std::str::from_utf8(b).ok())
+}
+
 #[derive(Clone, Debug, PartialEq)]
 pub enum Op {
+    /// chewing_userphrase_add (0) / _remove (1) / _lookup (2) with arbitrary arguments
+    User(u8, Arg, Arg),
+    /// chewing_userphrase_enumerate + has_next / get until the end
+    UserEnum,
+    /// chewing_set_selKey(one of SEL_KEY_SETS padded to 16 ints, len)
+    SetSelKeysLen(u8, i32),
+    /// chewing_config_set_str(STR_NAMES[i], value)
+    SetStr(u8, String),
     Default(i32),
     Named(u8),
     Numlock(i32),
@@ -266,6 +318,15 @@ impl Op {
                 format!("set_selKey(\"{}\")", SEL_KEY_SETS[*i as usize].iter().map(|k| *k as u8 as char).collect::<String>())
             }
             Op::SetSelKeys(i) => format!("set_selKey({:?})", SEL_KEY_SETS[*i as usize]),
+            Op::User(k, p, b) => format!(
+                "userphrase_{}({},{})",
+                ["add", "remove", "lookup"][*k as usize],
+                match p { None => "NULL".to_string(), Some(x) => format!("{:?}", String::from_utf8_lossy(x)) },
+                match b { None => "NULL".to_string(), Some(x) => format!("{:?}", String::from_utf8_lossy(x)) }
+            ).replace(' ', "_"),
+            Op::UserEnum => "userphrase_enumerate".into(),
+            Op::SetSelKeysLen(i, len) => format!("set_selKey({:?},len={})", SEL_KEY_SETS[*i as usize], len).replace(' ', ""),
+            Op::SetStr(i, v) => format!("config_set_str({},{:?})", STR_NAMES[*i as usize], v).replace(' ', "_"),
             Op::UserAdd(i) => format!("userphrase_add({})", PHRASES[*i as usize].0),
             Op::UserRemove(i) => format!("userphrase_remove({})", PHRASES[*i as usize].0),
         }
@@ -280,9 +341,11 @@ impl Op {
             Op::Set(w, _) => format!("set_{}", SETTERS[*w as usize]),
             Op::SetOpt(..) => "config_set_int".into(),
             Op::SetKb(_) => "set_KBType".into(),
-            Op::SetSelKeys(_) => "set_selKey".into(),
-            Op::UserAdd(_) => "userphrase_add".into(),
-            Op::UserRemove(_) => "userphrase_remove".into(),
+            Op::SetSelKeys(_) | Op::SetSelKeysLen(..) => "set_selKey".into(),
+            Op::SetStr(..) => "config_set_str".into(),
+            Op::UserAdd(_) | Op::User(0, ..) => "userphrase_add".into(),
+            Op::UserRemove(_) | Op::User(1, ..) => "userphrase_remove".into(),
+            Op::User(..) => "userphrase_lookup".into(),
             o => o.text(),
         }
     }
@@ -354,6 +417,28 @@ pub unsafe fn apply_c(ctx: Ctx, op: &Op) -> c_int {
                 let keys: Vec<c_int> = SEL_KEY_SETS[*i as usize].iter().map(|b| *b as c_int).collect();
                 chewing_set_selKey(ctx, keys.as_ptr(), 10);
                 0
+            }
+            Op::User(k, p, b) => {
+                let pc = p.as_ref().map(|x| CString::new(x.clone()).unwrap());
+                let bc = b.as_ref().map(|x| CString::new(x.clone()).unwrap());
+                let pp = pc.as_ref().map_or(std::ptr::null(), |c| c.as_ptr());
+                let bp = bc.as_ref().map_or(std::ptr::null(), |c| c.as_ptr());
+                match k {
+                    0 => chewing_userphrase_add(ctx, pp, bp),
+                    1 => chewing_userphrase_remove(ctx, pp, bp),
+                    _ => chewing_userphrase_lookup(ctx, pp, bp),
+                }
+            }
+            Op::UserEnum => chewing_userphrase_enumerate(ctx),
+            Op::SetSelKeysLen(i, len) => {
+                let mut keys: Vec<c_int> = SEL_KEY_SETS[*i as usize].iter().map(|b| *b as c_int).collect();
+                keys.resize(16, 33);
+                chewing_set_selKey(ctx, keys.as_ptr(), *len);
+                0
+            }
+            Op::SetStr(i, v) => {
+                let (n, v) = (CString::new(STR_NAMES[*i as usize]).unwrap(), CString::new(v.clone()).unwrap());
+                chewing_config_set_str(ctx, n.as_ptr(), v.as_ptr())
             }
             Op::UserAdd(i) => {
                 let (p, b) = PHRASES[*i as usize];
@@ -712,6 +797,73 @@ impl Twin {
                 }
                 plain(0)
             }
+            Op::User(k, p, b) => {
+                // the documented reading: a string that is NULL or not UTF-8 is no string
+                let (p, b) = (arg_str(p), arg_str(b));
+                match k {
+                    0 => {
+                        let Some(b) = b else { return plain(0) };
+                        let syls = parse_syllables(b);
+                        if syls.is_empty() || syls.len() > 11 {
+                            return plain(0);
+                        }
+                        let Some(p) = p else { return plain(-1) };
+                        plain(self.ed.learn_phrase(&syls, p).is_ok() as c_int)
+                    }
+                    1 => {
+                        let Some(b) = b else { return plain(0) };
+                        let syls = parse_syllables(b);
+                        let found = self.ed.user_dict().lookup_all_phrases(&syls, LookupStrategy::Standard);
+                        let Some(p) = p else { return plain(if found.is_empty() { 0 } else { -1 }) };
+                        if !found.iter().any(|ph| ph.as_str() == p) {
+                            return plain(0);
+                        }
+                        plain(self.ed.unlearn_phrase(&syls, p).is_ok() as c_int)
+                    }
+                    _ => {
+                        let Some(b) = b else { return plain(0) };
+                        let syls = parse_syllables(b);
+                        let found = self.ed.user_dict().lookup_all_phrases(&syls, LookupStrategy::Standard);
+                        plain(match p {
+                            Some(p) => found.iter().any(|ph| ph.as_str() == p),
+                            None => !found.is_empty(),
+                        } as c_int)
+                    }
+                }
+            }
+            Op::UserEnum => plain(0),
+            // "len: the length of the array, must be 10" - anything else is ignored
+            Op::SetSelKeysLen(i, len) => {
+                if *len == 10 {
+                    for (j, b) in SEL_KEY_SETS[*i as usize].iter().enumerate() {
+                        self.sel_keys[j] = *b;
+                    }
+                }
+                plain(0)
+            }
+            Op::SetStr(i, v) => match i {
+                0 => match KB_NAMES.iter().find(|(n, id)| *n == v.as_str() && *id >= 0) {
+                    Some((_, id)) => {
+                        let (kb, syl) = layout_of(*id);
+                        self.kb = kb;
+                        self.kb_id = *id;
+                        self.ed.set_syllable_editor(syl);
+                        plain(0)
+                    }
+                    None => plain(-1),
+                },
+                // "ten ASCII characters"
+                1 => {
+                    if v.len() != 10 || !v.is_ascii() {
+                        return plain(-1);
+                    }
+                    for (j, b) in v.bytes().enumerate() {
+                        self.sel_keys[j] = b as i32;
+                    }
+                    plain(0)
+                }
+                _ => plain(-1),
+            },
             Op::UserAdd(i) => {
                 let (p, b) = PHRASES[*i as usize];
                 let syls = parse_syllables(b);
@@ -728,4 +880,78 @@ impl Twin {
             }
         }
     }
+}
+
+// ------------------------------------------------------------------ user-phrase observations (work package capiuser)
+
+/// the user-phrase call an operation stands for: (0 add / 1 remove / 2 lookup, phrase, bopomofo)
+pub fn user_call(op: &Op) -> Option<(u8, Arg, Arg)> {
+    match op {
+        Op::User(k, p, b) => Some((*k, p.clone(), b.clone())),
+        Op::UserAdd(i) => Some((0, Some(PHRASES[*i as usize].0.as_bytes().to_vec()), Some(PHRASES[*i as usize].1.as_bytes().to_vec()))),
+        Op::UserRemove(i) => Some((1, Some(PHRASES[*i as usize].0.as_bytes().to_vec()), Some(PHRASES[*i as usize].1.as_bytes().to_vec()))),
+        _ => None,
+    }
+}
+
+/// `chewing_userphrase_enumerate`, then `has_next` / `get` (buffers of exactly the announced sizes) until `has_next`
+/// answers 0: the (phrase, bopomofo) pairs handed out, in order; `Err` = a protocol violation
+pub unsafe fn c_user_entries(ctx: Ctx) -> Result<Vec<(String, String)>, String> {
+    unsafe {
+        let rc = chewing_userphrase_enumerate(ctx);
+        if rc != 0 {
+            return Err(format!("chewing_userphrase_enumerate returned {}", rc));
+        }
+        let mut out = vec![];
+        loop {
+            let (mut pl, mut bl) = (0u32, 0u32);
+            if chewing_userphrase_has_next(ctx, &mut pl, &mut bl) != 1 {
+                break;
+            }
+            let mut pb = vec![0u8; pl as usize];
+            let mut bb = vec![0u8; bl as usize];
+            let rc = chewing_userphrase_get(ctx, pb.as_mut_ptr().cast(), pl, bb.as_mut_ptr().cast(), bl);
+            if rc != 0 {
+                return Err(format!("chewing_userphrase_get returned {} although has_next answered 1", rc));
+            }
+            let cut = |v: &[u8]| String::from_utf8_lossy(&v[..v.iter().position(|x| *x == 0).unwrap_or(v.len())]).to_string();
+            out.push((cut(&pb), cut(&bb)));
+            if out.len() > 10_000 {
+                return Err("the enumeration does not end".into());
+            }
+        }
+        Ok(out)
+    }
+}
+
+/// the twin's `user_dict().entries()` printed the documented way: (phrase, syllables joined by one space)
+pub fn twin_user_entries(tw: &mut Twin) -> Vec<(String, String)> {
+    tw.ed.user_dict().entries().map(|(k, p)| (p.as_str().to_string(), k.iter().map(|s| s.to_string()).collect::<Vec<_>>().join(" "))).collect()
+}
+
+/// the twin's entries as syllable codes: `c1.c2:x<phrase>` joined by `,` (sorted), `-` when empty
+pub fn twin_user_codes(tw: &mut Twin) -> String {
+    let mut v: Vec<String> = tw.ed.user_dict().entries().map(|(k, p)| format!("{}:{}", k.iter().map(|s| s.to_u16().to_string()).collect::<Vec<_>>().join("."), vharness::hx(p.as_str()))).collect();
+    v.sort();
+    if v.is_empty() { "-".into() } else { v.join(",") }
+}
+
+/// a set of (phrase, bopomofo) pairs as a record token: `x<phrase>:x<bopomofo>` sorted, joined by `,`; `-` when empty
+pub fn entries_token(e: &[(String, String)]) -> String {
+    let mut v: Vec<String> = e.iter().map(|(p, b)| format!("{}:{}", vharness::hx(p), vharness::hx(b))).collect();
+    v.sort();
+    if v.is_empty() { "-".into() } else { v.join(",") }
+}
+
+/// the syllables a user-phrase call reads from its bopomofo argument, printed (the harness's own reading: the tokens
+/// between ASCII white space up to the first one that is no syllable)
+pub fn read_bopomofo(b: &str) -> Vec<String> {
+    let mut out = vec![];
+    for tok in b.split(|c: char| matches!(c, ' ' | '\t' | '\n' | '\x0c' | '\r')).filter(|t| !t.is_empty()) {
+        match tok.parse::<Syllable>() {
+            Ok(s) => out.push(s.to_string()),
+            Err(_) => break,
+        }
+    }
+    out
 }
